@@ -7,7 +7,11 @@ from cm_colors.core.conversions import (
 )
 from cm_colors.core.color_parser import parse_color_to_rgb
 
-from cm_colors.core.contrast import calculate_contrast_ratio, get_wcag_level
+from cm_colors.core.contrast import (
+    calculate_contrast_ratio,
+    calculate_relative_luminance,
+    get_wcag_level,
+)
 from cm_colors.core.color_metrics import calculate_delta_e_2000
 
 from cm_colors.core.colors import Color
@@ -19,6 +23,7 @@ def binary_search_lightness(
     delta_e_threshold: float = 2.0,
     target_contrast: float = 7.0,
     large_text: bool = False,
+    min_contrast: Optional[float] = None,
 ) -> Optional[Tuple[int, int, int]]:
     """
     Search the Oklch lightness of a text color to find a candidate RGB that meets a contrast target while keeping perceptual change within a DeltaE threshold.
@@ -29,6 +34,7 @@ def binary_search_lightness(
         delta_e_threshold (float): Maximum allowed CIEDE2000 distance between the original text color and a candidate (default 2.0).
         target_contrast (float): Desired contrast ratio between candidate text and background (default 7.0).
         large_text (bool): Ignored by this routine but kept for API compatibility; no effect on search behavior (default False).
+        min_contrast (Optional[float]): Lowest contrast the caller accepts; only used to decide the search direction (defaults to target_contrast).
 
     Returns:
         Optional[Tuple[int, int, int]]: An (R, G, B) tuple for a candidate text color that meets the constraints, or `None` if no suitable candidate is found or an error occurs.
@@ -39,6 +45,18 @@ def binary_search_lightness(
         # Determine search direction based on background brightness
         bg_l, _, _ = rgb_to_oklch_safe(bg_rgb)
         search_up = bg_l < 0.5  # Lighten text on dark bg, darken on light bg
+
+        # The text may already sit on the other side of the background (e.g. lighter
+        # text on a mid-tone background). Walking it the usual way would move it
+        # *towards* the background first, so keep moving away from the background
+        # whenever that side can reach the required contrast at all.
+        text_lum = calculate_relative_luminance(text_rgb)
+        bg_lum = calculate_relative_luminance(bg_rgb)
+        if text_lum != bg_lum and (text_lum > bg_lum) != search_up:
+            needed = target_contrast if min_contrast is None else min_contrast
+            own_side_limit = oklch_to_rgb_safe((1.0 if text_lum > bg_lum else 0.0, c, h))
+            if calculate_contrast_ratio(own_side_limit, bg_rgb) >= needed:
+                search_up = not search_up
 
         # Binary search bounds
         low = l if search_up else 0.0
@@ -258,7 +276,7 @@ def generate_accessible_color(
     for max_delta_e in delta_e_sequence:
         # Phase 1: Binary search on lightness (fastest, most effective)
         binary_result = binary_search_lightness(
-            text_rgb, bg_rgb, max_delta_e, target_contrast, large
+            text_rgb, bg_rgb, max_delta_e, target_contrast, large, min_contrast
         )
 
         if binary_result:
